@@ -64,7 +64,14 @@ type closureInfo struct {
 	bindings []Val
 }
 
+// genMerge: a control-flow merge of heaps at least one of which was havocked as a whole.
+type genMerge struct {
+	heaps []*Heap
+	conds []string
+}
+
 type Gen struct {
+	uncontracted []string // callees without contract met while executing (over-approximated)
 	freeVars map[string]Val // closures: captured variables by name (value = address of the variable)
 	w    *World
 	fn   *ssa.Function
@@ -114,6 +121,7 @@ type Gen struct {
 	needGomod      bool
 	regionLoop     *loopInfo // non-nil: only this loop is being verified (RunRegion)
 	genAlloc       map[string]string // havoc generation -> allocation counter at that point
+	genMerges      map[string]*genMerge // merge generation -> incoming heaps and edge conditions
 	pendingAsserts []Clause
 	pendingGhosts  []Clause
 	ghostVals      map[string]Val
@@ -351,7 +359,22 @@ func (g *Gen) heapGet(h *Heap, name, sort string) string {
 		if !g.declared[c] {
 			g.declared[c] = true
 			g.emit(evDecl, fmt.Sprintf("(declare-const %s %s)", c, sort))
-			g.heapRange(c, name)
+			if gm := g.genMerges[gen]; gm != nil {
+				// the generation stands for a control-flow merge of heaps of which at least one was havocked as a
+				// whole: a heap first mentioned afterwards is the merge of what each incoming heap holds for it
+				t := ""
+				for i := len(gm.heaps) - 1; i >= 0; i-- {
+					ti := g.heapGet(gm.heaps[i], name, sort)
+					if t == "" {
+						t = ti
+					} else {
+						t = ite(gm.conds[i], ti, t)
+					}
+				}
+				g.emit(evAssert, "(assert (= "+c+" "+t+"))")
+			} else {
+				g.heapRange(c, name)
+			}
 		}
 		return c
 	}
